@@ -291,3 +291,7 @@ for _pid in SINGLE_ACTOR:
     for _fam in SINGLE_ACTOR:
         _c["quick"].setdefault(_fam, 150)
         _c["thorough"].setdefault(_fam, 2000)
+    # SMALL: uniform draws from a small systematically structured program space (every strategy x mailbox x
+    # fault kind, 1-4 operations from a fixed alphabet, optional second client, optional finale)
+    _c["quick"].setdefault("SMALL", 600)
+    _c["thorough"].setdefault("SMALL", 12000)
